@@ -1,11 +1,26 @@
 (* Entry point of the extracted runner: [run fn arg].  The Python side finds function
    numbers by parsing the "(* FN name *)" comments below. *)
 From Coq Require Import ZArith List.
-From PyCraft Require Import Base.Res Base.Sx Model.VarInt.
+From PyCraft Require Import Base.Res Base.Sx Model.VarInt Model.Versions.
 Import ListNotations.
 Open Scope Z_scope.
 
 Definition of_zrest (p : Z * list Z) : sx := L [I (fst p); of_zs (snd p)].
+
+(* ---- versions ---- *)
+Definition sx_pairs (s : sx) : list (Z * Z) := map (fun p => (sx_z (sx_nth p 0), sx_z (sx_nth p 1))) (sx_list s).
+Definition of_pairs (l : list (Z * Z)) : sx := L (map (fun p => L [I (fst p); I (snd p)]) l).
+Definition sx_vrec (s : sx) : vrec :=
+  {| v_id := sx_z (sx_nth s 0); v_proto := sx_z (sx_nth s 1); v_supported := sx_bool (sx_nth s 2); v_release := sx_bool (sx_nth s 3) |}.
+Definition sx_tables (s : sx) : tables :=
+  {| known_versions := sx_pairs (sx_nth s 0); known_protocols := sx_zs (sx_nth s 1); indices := sx_pairs (sx_nth s 2);
+     supported_versions := sx_pairs (sx_nth s 3); supported_protocols := sx_zs (sx_nth s 4);
+     release_versions := sx_pairs (sx_nth s 5); release_protocols := sx_zs (sx_nth s 6) |}.
+Definition of_tables (t : tables) : sx :=
+  L [of_pairs (known_versions t); of_zs (known_protocols t); of_pairs (indices t); of_pairs (supported_versions t);
+     of_zs (supported_protocols t); of_pairs (release_versions t); of_zs (release_protocols t)].
+(* release-ness of an id: looked up among the ids the harness classified *)
+Definition rel_in (rel_ids : list Z) (vid : Z) : bool := memZ vid rel_ids.
 
 Definition run (fn : Z) (a : sx) : sx :=
   match fn with
@@ -15,5 +30,16 @@ Definition run (fn : Z) (a : sx) : sx :=
       of_res of_zs (varint_send (sx_z (sx_nth a 0)))
   | 3 => (* FN varint_size : (v) *)
       of_res I (varint_size (sx_z (sx_nth a 0)))
+  | 10 => (* FN initglobals : (use_known release_ids records tables) *)
+      of_tables (initglobals (sx_bool (sx_nth a 0)) (rel_in (sx_zs (sx_nth a 1))) (map sx_vrec (sx_list (sx_nth a 2))) (sx_tables (sx_nth a 3)))
+  | 11 => (* FN od_set : (dict k v) *)
+      of_pairs (od_set (sx_pairs (sx_nth a 0)) (sx_z (sx_nth a 1)) (sx_z (sx_nth a 2)))
+  | 12 => (* FN cmp_batch : (indices pairs) -> list of (earlier earlier_eq) *)
+      let idx := sx_pairs (sx_nth a 0) in
+      L (map (fun pq => L [of_res of_bool (protocol_earlier idx (fst pq) (snd pq)); of_res of_bool (protocol_earlier_eq idx (fst pq) (snd pq))])
+             (sx_pairs (sx_nth a 1)))
+  | 13 => (* FN in_range_batch : (indices triples(pv start end)) *)
+      let idx := sx_pairs (sx_nth a 0) in
+      L (map (fun t => of_res of_bool (ctx_in_range idx (sx_z (sx_nth t 0)) (sx_z (sx_nth t 1)) (sx_z (sx_nth t 2)))) (sx_list (sx_nth a 1)))
   | _ => L [I 99]
   end.
